@@ -291,5 +291,5 @@ def scenario(rng, sid, tier, clean=False):
 
 def generate(seed, tier):
     rng = random.Random(seed * 1000003 % (2**31) + 18)
-    n = 240 if tier == "quick" else 6000
+    n = 2400 if tier == "quick" else 40000
     return [scenario(rng, "g%d" % i, tier, clean=(i % 4 == 0)) for i in range(n)]
